@@ -38,14 +38,65 @@ impl<F> Directory<F> {
         dir_start_sector: u32,
         validation: Validation,
     ) -> io::Result<Directory<F>> {
-        let directory = Directory {
+        let mut directory = Directory {
             allocator,
             dir_entries,
             dir_start_sector,
             dir_entry_generations: Vec::new(),
         };
         directory.validate(validation)?;
+        directory.drop_meaningless_root_start_sector();
         Ok(directory)
+    }
+
+    /// If there is no mini stream (the root entry's stream length is zero),
+    /// the CFB spec says nothing about the root entry's starting sector, and
+    /// other implementations leave zero or a stale sector number there.  Keep
+    /// it only if it starts a chain that nothing else uses (this
+    /// implementation keeps the mini stream's chain when the mini stream
+    /// becomes empty); otherwise the first small stream to be created would be
+    /// written into sectors that belong to something else.
+    fn drop_meaningless_root_start_sector(&mut self) {
+        let root_entry = self.root_dir_entry();
+        if root_entry.stream_len != 0
+            || root_entry.start_sector == consts::END_OF_CHAIN
+        {
+            return;
+        }
+        let mut sector_ids = FnvHashSet::default();
+        let mut sector_id = root_entry.start_sector;
+        let mut usable = true;
+        while sector_id != consts::END_OF_CHAIN {
+            if !sector_ids.insert(sector_id) {
+                usable = false;
+                break;
+            }
+            match self.allocator.next(sector_id) {
+                Ok(next_id) => sector_id = next_id,
+                Err(_) => {
+                    usable = false;
+                    break;
+                }
+            }
+        }
+        // (Chains cannot merge, so two chains share sectors only if one of
+        // them starts inside the other.)
+        if usable
+            && (self.allocator.has_predecessor(root_entry.start_sector)
+                || sector_ids.contains(&self.dir_start_sector)
+                || self.dir_entries.iter().skip(1).any(|dir_entry| {
+                    dir_entry.obj_type == ObjType::Stream
+                        && dir_entry.stream_len
+                            >= consts::MINI_STREAM_CUTOFF as u64
+                        && sector_ids.contains(&dir_entry.start_sector)
+                }))
+        {
+            usable = false;
+        }
+        if !usable {
+            self.dir_entry_mut(consts::ROOT_STREAM_ID).start_sector =
+                consts::END_OF_CHAIN;
+        }
     }
 
     pub fn version(&self) -> Version {
